@@ -155,6 +155,33 @@ def _(c, m, x):
         p_le(_sumsq(ev(xv)), aux[yi] * aux[zi]), p_le(0, aux[yi]), p_le(0, aux[zi]))
 
 
+@case("fnorm of two arrays", exact=False)
+def _(c, m, x):
+    e, ev = lin(c, x, 2, "in")
+    f, fv = lin(c, x, 2, "fn")
+    r, rv = _rhs(c, x, ())
+    # || (e, f as a 2x1 block) ||_F <= t   <=>   t >= 0 and sum e^2 + sum f^2 <= t^2
+    return rsome.fnorm(e, f.reshape((2, 1))) <= r, lambda xv, aux: p_and(p_le(0, rv(xv)), p_le(_sumsq(ev(xv)) + _sumsq(fv(xv)), rv(xv) * rv(xv)))
+
+
+@case("sumsqr of two arrays", exact=False)
+def _(c, m, x):
+    e, ev = lin(c, x, 2, "in")
+    f, fv = lin(c, x, 2, "fn")
+    r, rv = _rhs(c, x, ())
+    return rsome.sumsqr(e, f[0]) <= r, lambda xv, aux: p_le(_sumsq(ev(xv)) + fv(xv)[0] * fv(xv)[0], rv(xv))
+
+
+@case("rsocone of a collection", exact=False)
+def _(c, m, x):
+    e, ev = lin(c, x, 2, "in")
+    f, fv = lin(c, x, 2, "fn")
+    y = m.dvar()
+    z = m.dvar()
+    return rsome.rsocone([e, f[1:]], y, z), lambda xv, aux, yi=y.first, zi=z.first: p_and(
+        p_le(_sumsq(ev(xv)) + fv(xv)[1] * fv(xv)[1], aux[yi] * aux[zi]), p_le(0, aux[yi]), p_le(0, aux[zi]))
+
+
 @case("concave-abs-ge")
 def _(c, m, x):
     e, ev = lin(c, x, 2, "in")
